@@ -336,3 +336,23 @@ Definition text_validate (low high : Z) (st : bool * N) : bool :=
   fst st && negb ((snd st <? size_t_of_int low) || ((0 <=? high)%Z && (size_t_of_int high <? snd st))).
 Definition text_widget (charset : bool) (enc value : list N) (low high : Z) : option bool :=
   option_map (text_validate low high) (text_load charset enc value).
+
+(* ---------- booster utf_traits<char,1>::decode_valid: the unchecked decoder for input known to be valid ---------- *)
+(* (on other input the C++ function may read past the end; the model then stops at the end of the list) *)
+Fixpoint read_valid (k : nat) (c : N) (l : list N) : N * list N :=
+  match k with
+  | O => (c, l)
+  | S k' => match l with
+            | [] => (c, [])
+            | t :: r => read_valid k' (c * 64 + t mod 64) r
+            end
+  end.
+Definition decode_valid (l : list N) : N * list N :=
+  match l with
+  | [] => (0, [])
+  | lead :: r =>
+      if lead <? 192 then (lead, r)
+      else if lead <? 224 then read_valid 1 (lead mod 32) r
+      else if lead <? 240 then read_valid 2 (lead mod 16) r
+      else read_valid 3 (lead mod 8) r
+  end.
